@@ -4,6 +4,8 @@ package fake
 
 import (
 	"bytes"
+	"crypto/sha1"
+	"encoding/hex"
 	"encoding/json"
 	"errors"
 	"fmt"
@@ -188,7 +190,7 @@ func (s *Service) Eval(req *engine.Request, callID int64, pos, batch int, mp boo
 		}
 		vars := req.Variables
 		if mp {
-			vars = stripUploads(vars)
+			vars = InjectUploads(vars, files)
 		}
 		res := engine.ExecuteOp(s.Schema, doc, op, vars, s.Data, "")
 		if len(res.Errors) > 0 {
@@ -216,6 +218,58 @@ func (s *Service) Eval(req *engine.Request, callID int64, pos, batch int, mp boo
 }
 
 func stripUploads(v map[string]any) map[string]any { return v }
+
+// UploadMarker is the value a fake service (and the reference) substitutes for an uploaded file.
+func UploadMarker(name string, data []byte) string {
+	h := sha1.Sum(data)
+	return fmt.Sprintf("upload:%s:%s:%d", name, hex.EncodeToString(h[:6]), len(data))
+}
+
+// InjectUploads returns a deep copy of vars in which every path of every file holds the file's marker.
+func InjectUploads(vars map[string]any, files []FileInfo) map[string]any {
+	b, _ := json.Marshal(vars)
+	var out map[string]any
+	json.Unmarshal(b, &out)
+	if out == nil {
+		out = map[string]any{}
+	}
+	for _, f := range files {
+		for _, p := range f.Paths {
+			segs := strings.Split(p, ".")
+			if len(segs) < 2 || segs[0] != "variables" {
+				continue
+			}
+			setPath(out, segs[1:], UploadMarker(f.Name, f.Bytes))
+		}
+	}
+	return out
+}
+
+func setPath(cur any, segs []string, val any) {
+	for i, sg := range segs {
+		last := i == len(segs)-1
+		switch c := cur.(type) {
+		case map[string]any:
+			if last {
+				c[sg] = val
+				return
+			}
+			cur = c[sg]
+		case []any:
+			var idx int
+			if _, err := fmt.Sscanf(sg, "%d", &idx); err != nil || idx < 0 || idx >= len(c) {
+				return
+			}
+			if last {
+				c[idx] = val
+				return
+			}
+			cur = c[idx]
+		default:
+			return
+		}
+	}
+}
 
 // --------------------------------------------------------------- transport
 
